@@ -1,7 +1,7 @@
 (* C16 — Nothing follows a Close frame: no data frames and no second Close frame.
    Statements only; proofs in Proofs/AfterCloseP.v (sequential writer) and Proofs/SchedP.v (all interleavings, when present). *)
 From Coq Require Import List NArith ZArith Bool.
-From WS Require Import Base.Words Model.Mask Model.Frame Model.Proto Model.Writer Proofs.AfterCloseP.
+From WS Require Import Base.Words Model.Mask Model.Frame Model.Proto Model.Writer Proofs.AfterCloseP Model.Sched Proofs.SchedP.
 Import ListNotations.
 Open Scope N_scope.
 
@@ -13,6 +13,14 @@ Theorem C16_nothing_after_close : forall (keys : nat -> key) (dz : list dzop -> 
   nothing_after_close (w_out (w_run keys dz cfg prog)).
 Proof. exact writer_nothing_after_close. Qed.
 Print Assumptions C16_nothing_after_close.
+
+(* ALL INTERLEAVINGS: any number of goroutines writing, pinging, closing (Close / CloseNow), the read side echoing the
+   peer's Close frame or answering a protocol error with a Close frame, the connection closed from outside at any moment,
+   under EVERY schedule: after the first transport write of a Close frame nothing reaches the wire but the rest of that
+   Close frame and Pings/Pongs — no data frame, no second Close frame. *)
+Theorem C16_all_interleavings : forall is_client progs sched, after_close None (Sched.wire (run (init is_client progs) sched)) = true.
+Proof. exact sched_after_close. Qed.
+Print Assumptions C16_all_interleavings.
 
 (* the scan really rejects what the property forbids, and accepts Pongs after the Close frame *)
 Example C16_scan_rejects :
